@@ -482,7 +482,7 @@ def _do_macrofn(asm, toks, block, tmpl_line):
     if fn_params is None or [p[0] for p in fn_params] != [p[0] for p in md.params]:
         raise CutError('macrofn %s: //@params must list the macro parameters %s in order' % (kv['name'], [p[0] for p in md.params]))
     may_return = kv.get('may_return', '0') == '1'
-    g, params, body, hits = extract.macro_as_fn(md, asm.macros, fn_params, may_return, kv.get('generics'), None)
+    g, params, body, hits = extract.macro_as_fn(md, asm.macros, fn_params, may_return, kv.get('generics'), None, kv.get('errwrap', 'PrinterLogMessageResult::Err'))
     fname = kv['name'] + '__fn'
     ret = ' -> (%s: core::result::Result<(), Error>)' % kv.get('ret', 'r') if may_return else ''
     mline = int(md.where.split(':')[1])
@@ -502,6 +502,7 @@ def _do_macrofn(asm, toks, block, tmpl_line):
     _finish_cut(asm, c, text, hits, kv2, rest, 'fn')
     md.fn_params = [(pn, kind, ty) for pn, kind, ty in fn_params]
     md.may_return = may_return
+    md.errwrap = kv.get('errwrap', 'PrinterLogMessageResult::Err')
     asm.macros[kv['name']] = md
 
 
